@@ -206,6 +206,13 @@ func GenMap(r *mon.RNG, o *MapOpts) *GMap {
 				kids = append(kids, &RX{Op: "lit", Lit: r.Pick(";", "x", "--", ")")})
 			}
 			rx := &RX{Op: "cat", Kids: kids}
+			if r.Chance(1, 4) {
+				// a back-reference pattern with a top-level alternation: \1--|x
+				rx = &RX{Op: "alt", Kids: []*RX{rx, genLit(r, gopts)}}
+				if r.Bool() {
+					rx.Kids[0], rx.Kids[1] = rx.Kids[1], rx.Kids[0]
+				}
+			}
 			nm := newName(false)
 			pool[nm] = rx
 			gr := GRule{Name: nm, Pattern: rx.String(), rx: rx}
